@@ -17,6 +17,7 @@ type replayTemplate struct {
 	Test     string `json:"test"`
 	What     string `json:"what"`
 	Loop     int    `json:"loop"`
+	Property string `json:"property"` // if set: the template only applies to checks of this property
 }
 
 func loadReplayIndex() []replayTemplate {
@@ -65,7 +66,7 @@ func runOverlayTest(repo, pkgDir, testFile, testName string, race bool) (string,
 // obligation's family. It returns (reproduced, details); details == nil means no driver applies.
 func tryReplay(w *World, res *checkResult, g *oblGroup, o *Obligation, model map[string]string, repo, base string) (bool, map[string]interface{}) {
 	for _, rt := range loadReplayIndex() {
-		if !globMatch(rt.Pattern, g.Name) {
+		if !globMatch(rt.Pattern, g.Name) || (rt.Property != "" && res != nil && rt.Property != res.Prop) {
 			continue
 		}
 		tf := filepath.Join("/verif/replay_templates", rt.Template)
@@ -74,6 +75,9 @@ func tryReplay(w *World, res *checkResult, g *oblGroup, o *Obligation, model map
 		return rep, map[string]interface{}{"driver": "template " + rt.Template, "scenario": rt.What, "ran": ran,
 			"command": fmt.Sprintf("go test -overlay <%s as %s/zz_govc_replay_test.go> -run %s ./%s", rt.Template, rt.Pkg, rt.Test, rt.Pkg),
 			"reproduced": rep, "output": truncate(out, 3000)}
+	}
+	if o == nil {
+		return false, nil // rejected function: only fixed-scenario templates apply
 	}
 	if d := shipReplay(w, g, o, model, repo, base); d != nil {
 		return d["reproduced"] == true, d
